@@ -539,6 +539,36 @@ func (g *Gen) handlerReinstall(d int) []Stmt {
 	return st
 }
 
+// genforCompound: the expression list of a generic for contains calls that are operands of
+// something else (call of a call result, index of a call result by a call result, concatenation).
+func (g *Gen) genforCompound(d int) []Stmt {
+	g.use("genfor-compound-iterator-expression")
+	mk, ft, key := g.fresh("gm"), g.fresh("gt"), g.fresh("gk")
+	n := float64(1 + g.R.Intn(3))
+	pre := []Stmt{
+		&LocalFunc{X: mk, F: &Func{Body: []Stmt{ret(&Func{Params: []string{"n"}, Body: []Stmt{local1("i", num(0)),
+			ret(&Func{Body: []Stmt{set(v("i"), bin("+", v("i"), num(1))), &If{C: bin("<=", v("i"), v("n")), Then: []Stmt{ret(v("i"), bin("*", v("i"), num(10)))}}}})}})}}},
+		&LocalFunc{X: ft, F: &Func{Body: []Stmt{ret(&Table{Items: []TItem{{Kind: 1, Name: "k", E: &Table{Items: []TItem{{E: num(10)}, {E: num(20)}}}}}})}}},
+		&LocalFunc{X: key, F: &Func{Body: []Stmt{ret(str("k"))}}},
+	}
+	body := func(xs ...string) []Stmt {
+		args := make([]Expr, len(xs))
+		for i, x := range xs {
+			args[i] = v(x)
+		}
+		return []Stmt{emit(args...)}
+	}
+	idx := &Index{E: call(ft), K: call(key)}
+	loops := []Stmt{
+		&GenFor{Xs: []string{"i", "x"}, Es: []Expr{&Call{F: call(mk), Args: []Expr{num(n)}}}, Body: body("i", "x")},
+		&GenFor{Xs: []string{"i", "x"}, Es: []Expr{call("ipairs", idx)}, Body: body("i", "x")},
+		&GenFor{Xs: []string{"i", "x"}, Es: []Expr{v("next"), idx}, Body: body("i", "x")},
+		&GenFor{Xs: []string{"i"}, Es: []Expr{&Call{F: &Paren{E: call(mk)}, Args: []Expr{bin("+", &Un{Op: "#", A: bin("..", call(key), str("z"))}, num(0))}}}, Body: body("i")},
+	}
+	k := g.R.Intn(len(loops))
+	return append(pre, loops[k], loops[(k+1+g.R.Intn(len(loops)-1))%len(loops)])
+}
+
 // genforFalse: a generic for continues while the first value is not nil; false is not nil.
 func (g *Gen) genforFalse(d int) []Stmt {
 	g.use("genfor-first-value-false")
@@ -631,5 +661,38 @@ func (g *Gen) xpcallCallable(d int) []Stmt {
 			E: &Func{Params: []string{"self"}, Vararg: true, Body: []Stmt{emit(str("called"), call("type", v("self")), call("select", str("#"), &Varargs{})), ret(g.litInt(), g.litInt())}}}}})),
 		emit(call("xpcall", v(c), h)),
 		emit(call("xpcall", bad, h)),
+	}
+}
+
+// callableHandlers: a metamethod handler that is a callable table (has __call) is called like any
+// non-nil handler (Lua 5.1 call_binTM/call_orderTM/luaL_callmeta go through luaD_call); an
+// __index/__newindex that is a callable table is indexed/assigned, not called.
+func (g *Gen) callableHandlers(d int) []Stmt {
+	g.use("meta-callable-table-handler")
+	h, mt, x, y := g.fresh("kh"), g.fresh("km"), g.fresh("kx"), g.fresh("ky")
+	ri := g.R.Intn(4)
+	res := []Expr{str("handled"), num(1), &False{}, &Nil{}}[ri]
+	// the second operand is not logged: for __unm lvm.c passes the operand twice, the manual's
+	// unm_event once (gopher-lua follows the manual, the reference evaluator lvm.c)
+	hbody := &Func{Params: []string{"self", "a"}, Body: []Stmt{emit(str("H"), call("type", v("self")), call("type", v("a"))), ret(res)}}
+	evs := []string{"__add", "__sub", "__mul", "__concat", "__unm", "__eq", "__lt", "__le", "__tostring"}
+	items := []TItem{}
+	for _, e := range evs {
+		if e == "__tostring" && ri != 0 {
+			continue // a non-string result of __tostring is an error in 5.1's tostring
+		}
+		if g.R.Intn(4) != 0 {
+			items = append(items, TItem{Kind: 1, Name: e, E: v(h)})
+		}
+	}
+	p := func(e Expr) Stmt { return emit(call("pcall", &Func{Body: []Stmt{ret(e)}})) }
+	return []Stmt{
+		local1(h, call("setmetatable", &Table{Items: []TItem{{Kind: 1, Name: "k", E: str("field")}}}, &Table{Items: []TItem{{Kind: 1, Name: "__call", E: hbody}}})),
+		local1(mt, &Table{Items: items}),
+		local1(x, call("setmetatable", &Table{}, v(mt))), local1(y, call("setmetatable", &Table{}, v(mt))),
+		p(bin("+", v(x), g.litInt())), p(bin("-", g.litInt(), v(x))), p(bin("*", v(x), v(y))), p(bin("..", v(x), str("s"))),
+		p(&Un{Op: "-", A: v(x)}), p(bin("==", v(x), v(y))), p(bin("<", v(x), v(y))), p(bin("<=", v(x), v(y))), p(bin(">", v(x), v(y))),
+		p(call("type", call("tostring", v(x)))),
+		emit(idx(call("setmetatable", &Table{}, &Table{Items: []TItem{{Kind: 1, Name: "__index", E: v(h)}}}), "k")),
 	}
 }
